@@ -5,11 +5,9 @@ go 1.22
 require (
 	github.com/grindlemire/go-lucene v0.0.14
 	github.com/pganalyze/pg_query_go/v4 v4.2.3
+	google.golang.org/protobuf v1.23.0
 )
 
-require (
-	github.com/golang/protobuf v1.4.2 // indirect
-	google.golang.org/protobuf v1.23.0 // indirect
-)
+require github.com/golang/protobuf v1.4.2 // indirect
 
 replace github.com/grindlemire/go-lucene => /repo
